@@ -58,6 +58,21 @@ func sum(b []byte) string {
 	return hex.EncodeToString(h[:])[:24]
 }
 
+// hostValue is a Go value with methods that take containers: what the script passes must reach Go the
+// same way on every evaluation (or be refused the same way).
+type hostValue struct{}
+
+func (h *hostValue) Join(xs []string) string { return strings.Join(xs, "|") }
+func (h *hostValue) Sum(xs []int) int {
+	t := 0
+	for i, x := range xs {
+		t = t*31 + x*(i+1)
+	}
+	return t
+}
+func (h *hostValue) Keys(m map[string]int) int { return len(m) }
+func (h *hostValue) Any(v any) string          { return fmt.Sprint(v) }
+
 func observe(src string) (o obs) {
 	ctx, cancel := context.WithTimeout(context.Background(), 20*time.Second)
 	defer cancel()
@@ -84,7 +99,7 @@ func observe(src string) (o obs) {
 	}()
 	vos := ros.NewVirtualOS(ctx, ros.WithStdout(stdout), ros.WithArgs([]string{"prog", "-a", "b"}),
 		ros.WithEnvironment(map[string]string{"ALPHA": "1", "BETA": "2", "GAMMA": "3", "DELTA": "4", "EPS": "5", "ZETA": "6", "ETA": "7"}))
-	cfg := risor.NewConfig(risor.WithOS(vos), risor.WithGlobal("tick", tick))
+	cfg := risor.NewConfig(risor.WithOS(vos), risor.WithGlobal("tick", tick), risor.WithGlobal("host", &hostValue{}))
 	prog, err := parser.Parse(ctx, src)
 	if err != nil {
 		o.Err = "parse: " + err.Error()
@@ -109,7 +124,7 @@ func observe(src string) (o obs) {
 	} else {
 		o.Code = "marshal-error: " + err.Error()
 	}
-	res, err := risor.EvalCode(ctx, code, risor.WithOS(vos), risor.WithGlobal("tick", tick))
+	res, err := risor.EvalCode(ctx, code, risor.WithOS(vos), risor.WithGlobal("tick", tick), risor.WithGlobal("host", &hostValue{}))
 	o.Out = stdout.String()
 	o.Ticks = ticks
 	if err != nil {
@@ -243,6 +258,10 @@ func orderProgram(r *mon.Rand) (src string, tags []string) {
 		"g := func(k) { return m[k] }; print(keys(m).map(g))", "print(keys(m).filter(func(k) { return k > \"a\" }))", "each := []; keys(m).each(func(k) { each.append(k) }); print(each)",
 		"print(sorted(m, func(a, b) { return len(a) < len(b) }))", "print(sorted(s, func(a, b) { tick(a); return false }))", "print(sorted(m, func(a, b) { tick(b); return m[a] < m[b] }))",
 		"print(sorted(keys(m), func(a, b) { return false }), sorted(s, func(a, b) { return type(a) < type(b) }))", "print(sorted(m.values(), func(a, b) { return a % 3 < b % 3 }))",
+		"print(try(func() { return host.Join({\"b\", \"a\", \"c\", \"d\"}) }, func(e) { return string(e) }), try(func() { return host.Sum({3, 1, 2, 9, 7}) }, func(e) { return string(e) }))",
+		"print(host.Join(keys(m)), host.Any(m), host.Any(s), try(func() { return host.Sum(s) }, func(e) { return string(e) }))", "print(host.Any({\"z\": 1, \"y\": [s], \"x\": m}), host.Keys({\"p\": 1, \"q\": 2}))",
+		"print(math.sum({0.1, 0.2, 0.3, 0.4, 0.5, 0.6, 0.7}), math.sum({1e16, 1.0, -1e16, 3.0}), math.sum({1, 2.5, 3}))", "print(try(func() { return math.sum({\"a\", [1], {}, nil}) }, func(e) { return string(e) }), try(func() { return math.sum(s) }, func(e) { return string(e) }))",
+		"print(math.sum(m.values()), math.max(1, 2), try(func() { return math.sum(set(m.values())) }, func(e) { return string(e) }))",
 		"print(os.environ())", "print(os.environ()[0], len(os.environ()), os.getenv(\"GAMMA\"), os.args())", "for i, e := range os.environ() { tick(e) }",
 		"print(s.union(set(m.values())))", "print(sorted(m.values()))", "print(string(keys(m)), sprintf(\"%v %v\", m, s))", "print(m.get(\"a\", 0), m.pop(\"b\", -1), m.setdefault(\"q\", tick(200)), m)",
 	}
